@@ -115,6 +115,7 @@ Section Inv.
   Definition is_tried (e : Z * ainfo) : bool := a_tried (snd e).
   Definition on_net (net : Z) (e : Z * ainfo) : bool := network (a_key (snd e)) =? net.
   Record Cnt (L : list Z) (s : st) : Prop := mkCnt {
+    C_nd : NoDup (keys (s_netcnt s));
     C_new : s_nnew s = mcount (is_new L) (s_info s);
     C_tried : s_ntried s = mcount is_tried (s_info s);
     C_net : forall net, nc_get (s_netcnt s) net =
